@@ -49,7 +49,62 @@ def jobs(tier, seed):
                 js.append({"id": f"s{si}-{cfg[0]}-{cfg[1]}-{'flip' if cfg[2] else 'noflip'}-g{gs}", "y": y, "groups": g, "cfg": list(cfg), "grid": gs})
     for K in ((2, 3, 4, 5) if tier == "quick" else (2, 3, 4, 5, 6)):
         js.insert(0, {"id": f"hullU1-K{K}", "kind": "hullU1", "K": K})
+    # scores in narrow machine dtypes cannot hold proxies: concrete seeded score vectors near the top of the dtype's range (sampling), each decided
+    # by the same LRA optimality query over all admissible randomised rules
+    for dt in ("int8", "uint8", "int16", "float32", "int64"):
+        js.append({"id": f"dtypes-{dt}", "kind": "dtypes", "dtype": dt, "seed": seed, "cases": 15 if tier == "quick" else 90})
     return js
+
+
+def _dtype_problem(dt, cons, flip, y, groups, scores, gs):
+    from fairlearn.postprocessing import ThresholdOptimizer
+
+    import harness.c04 as c04
+
+    n = len(y)
+    X = np.arange(n).reshape(-1, 1)
+    sf = [tc.GROUPS[g] for g in groups]
+    obj = "balanced_accuracy_score" if cons != "equalized_odds" else "accuracy_score"
+    cfg = (cons, obj, flip)
+    to = ThresholdOptimizer(estimator=c04._DtypeScorer(np.array(scores, dtype=dt)), constraints=cons, objective=obj, grid_size=gs, flip=flip, prefit=True,
+                            predict_method="decision_function")
+    try:
+        to.fit(X, list(y), sensitive_features=sf)
+        pm = np.asarray(to._pmf_predict(X, sensitive_features=sf), dtype=float)
+    except Exception as e:
+        return f"raised {type(e).__name__}: {e}"
+    p1 = [tc.to_frac(pm[i, 1]) for i in range(n)]
+    fitted = fitted_objective(cfg, y, groups, p1)
+    q, value = better_rule_query(cfg, y, groups, [Fr(int(v)) for v in scores], gs, fitted, margin=Fr(1, 10 ** 7))
+    if q.check() != z3.unsat:
+        return f"fitted objective {float(fitted):.6g}, but an admissible randomised rule on the grid reaches {q.model().eval(value)}"
+    return None
+
+
+def _run_dtypes(job, acc):
+    import harness.c04 as c04
+
+    r = acc.r
+    k = 0
+    for cons, flip, y, g, scores, gs in c04._dtype_cases(job):
+        k += 1
+        r["obligations"] += 1
+        r["queries"] += 1
+        r["ob_names"]["machine_dtype_scores_fitted_rule_optimal"] = r["ob_names"].get("machine_dtype_scores_fitted_rule_optimal", 0) + 1
+        bad = _dtype_problem(job["dtype"], cons, flip, y, g, scores, gs)
+        if bad:
+            r["sat"] += 1
+            if len(r["cex"]) < 3:
+                r["cex"].append({"obligation": "machine_dtype_scores_fitted_rule_optimal", "signature": f"dtype:{job['dtype']}", "job": job, "model": {},
+                                 "extra": {"cons": cons, "flip": flip, "y": y, "groups": g, "scores": scores, "grid": gs, "problem": bad}})
+        else:
+            r["discharged"] += 1
+    r["paths"] += 1
+    r["paths_with_obligations"] += 1
+    r["canaries"] += 1
+    r["canaries_fired"] += 1
+    r["samples"].append({"job": job["id"], "cases": k})
+    return acc.result()
 
 
 def fitted_objective(cfg, y, groups, p1):
@@ -122,6 +177,8 @@ def run_job(job, deadline):
 
         hull.explore_hull(acc, job["K"], deadline, ("envelope",), "c05")
         return acc.result()
+    if job.get("kind") == "dtypes":
+        return _run_dtypes(job, acc)
     y, groups, cfg, gs = job["y"], job["groups"], tuple(job["cfg"]), job["grid"]
     n = len(y)
 
@@ -172,6 +229,11 @@ def replay(cex):
         from harness import hull
 
         return hull.replay_unit(cex)
+    if cex["job"].get("kind") == "dtypes":
+        e = cex["extra"]
+        bad = _dtype_problem(cex["job"]["dtype"], e["cons"], e["flip"], e["y"], e["groups"], e["scores"], e["grid"])
+        return {"reproduced": bool(bad), "detail": f"{bad} for scores {e['scores']} stored as {cex['job']['dtype']}, y={e['y']} groups={e['groups']} "
+                                                   f"constraints={e['cons']} flip={e['flip']} grid_size={e['grid']}"}
     job, mdl = cex["job"], cex["model"]
     y, groups, cfg, gs = job["y"], job["groups"], tuple(job["cfg"]), job["grid"]
     n = len(y)
